@@ -3,6 +3,8 @@ exists and produces its generator; GF(2) arithmetic."""
 from ..core import Harness
 
 PRELUDE = """use ldpc_toolbox::verif_hooks::gauss_reduction;
+use ldpc_toolbox::encoder::Encoder;
+use ldpc_toolbox::sparse::SparseMatrix;
 use ldpc_toolbox::gf2::GF2;
 use ndarray::Array2;
 use num_traits::{One, Zero};
@@ -20,15 +22,42 @@ def build(tier, seed):
         items.append((Harness(hn, {"shape": "%dx%d" % (r, n), "input": "ALL %d-entry binary matrices (every entry symbolic)" % (r * n),
                                     "oracle": "Err <=> left block singular (subset-sum reference); Ok => [I|X] and B*X == C"}, float(r * r * n), covers=(2 if r == 1 else None), unwindset=us),
                       "crate::c02_gauss!(%s, %d, %d, %d);" % (hn, r, n, unw)))
+    # encode(): both encoder kinds, built from a generator part through the verif-hooks constructors
+    dense = [(1, 1), (2, 2), (2, 3), (3, 2)] if tier == "quick" else [(1, 1), (1, 3), (2, 2), (2, 3), (3, 2), (3, 3), (3, 4), (4, 3)]
+    for r, k in dense:
+        hn = "c02_encode_dense_r%dk%d" % (r, k)
+        us = [(r"Vec.*GF2.*extend_with", max(r * k, r + k) + 3)]
+        items.append((Harness(hn, {"kind": "DenseGenerator", "parity_bits": r, "message_bits": k, "input": "every %dx%d generator part and every pair of messages" % (r, k),
+                                    "oracle": "word = [message | G*message]; encode(m1+m2) == encode(m1)+encode(m2)"}, 3.0 + r * k, unwindset=us),
+                      "crate::c02_encode_dense!(%s, %d, %d, %d);" % (hn, r, k, max(r, k) + 3)))
+    stair = [("s3x2", 2, [[0], [0, 1], [1]]), ("s2x3", 3, [[0, 1], [1, 2]])]
+    if tier != "quick":
+        stair += [("s4x3", 3, [[0, 2], [1], [0, 1, 2], [2]]), ("s3x4", 4, [[0, 3], [1, 2], [0, 1, 2, 3]])]
+    global EXTRA
+    EXTRA = ""
+    for nm, k, rows in stair:
+        r = len(rows)
+        EXTRA += "fn h0_%s() -> SparseMatrix {\n    let mut h = SparseMatrix::new(%d, %d);\n" % (nm, r, k)
+        for i, rw in enumerate(rows):
+            EXTRA += "    h.insert_row(%d, [%s].iter());\n" % (i, ", ".join("%dusize" % c for c in rw))
+        EXTRA += "    h\n}\n"
+        EXTRA += "const H0B_%s: [[bool; %d]; %d] = [%s];\n" % (nm, k, r, ", ".join("[" + ", ".join("true" if c in rw else "false" for c in range(k)) + "]" for rw in rows))
+        hn = "c02_encode_stair_%s" % nm
+        us = [(r"Vec.*GF2.*extend_with", r + k + 3)]
+        items.append((Harness(hn, {"kind": "Staircase", "H0_rows": rows, "message_bits": k, "input": "every message",
+                                    "oracle": "word starts with the message and satisfies every check of H = [H0 | dual diagonal]"}, 4.0 + r * k, unwindset=us),
+                      "crate::c02_encode_staircase!(%s, h0_%s, H0B_%s, %d, %d, %d);" % (hn, nm, nm, r, k, max(r, k) + 3)))
     items.append((Harness("c02_gf2_ops", {"input": "all operand pairs", "oracle": "xor/and/identity"}, 0.5), "crate::c02_gf2!(c02_gf2_ops);"))
     items.append((Harness("c02_gf2_div0_zero", {"input": "0/0", "oracle": "panics"}, 0.5, covers=0), "crate::c02_gf2_div0!(c02_gf2_div0_zero, false);"))
     items.append((Harness("c02_gf2_div0_one", {"input": "1/0", "oracle": "panics"}, 0.5, covers=0), "crate::c02_gf2_div0!(c02_gf2_div0_one, true);"))
     meta = {
-        "functions": ["linalg::gauss_reduction::<GF2> (through the verif-hooks re-export)", "gf2::GF2 {Add, Sub, Mul, Div, Zero, One, AddAssign, MulAssign}", "ndarray::Array2 indexing/swap/slice used by it"],
+        "functions": ["Encoder::encode for both encoder kinds (built through the verif-hooks constructors verif_from_dense_generator / verif_from_staircase_generator)",
+                      "linalg::gauss_reduction::<GF2> (through the verif-hooks re-export)", "gf2::GF2 {Add, Sub, Mul, Div, Zero, One, AddAssign, MulAssign}", "ndarray::Array2 indexing/swap/slice used by it"],
         "bounds": {"shapes": ["%dx%d" % s for s in shapes], "unwind": "max(n,r)+3 globally; Vec::extend_with (zeros) r*n+3 and the harness's own subset-enumeration loops 2^r+3 via --unwindset"},
-        "outside": ["Encoder::from_h wrapper: column rotation [H0 H1]->[H1 H0], slicing, staircase detection, staircase accumulate path, Encoder::encode (dot/concatenate) -- unreachable: SparseMatrix::iter_all() defeats symbolic execution even on concrete input (probe P14)",
+        "outside": ["Encoder::from_h glue: dense copy with column rotation [H0 H1]->[H1 H0], slicing of the reduced matrix, staircase detection (is_staircase) and extraction of H0 -- from_h on a concrete 2x4 H did not finish symbolic execution in 25 min even with tight unwinding (re-probed: 1271 s symex, 2.7 M steps, no verdict)",
+                    "the composition of the three verified pieces (gauss core, dense encode, staircase encode) into H*word == 0 for from_h-built encoders relies on that glue",
                     "shapes larger than listed"],
         "stubs": [],
         "assumptions": ["with B = H1 (last r columns) and C = H0 the asserted facts are exactly: encoder exists iff H1 invertible, else error; parity = X*m satisfies H0*m + H1*X*m = 0"],
     }
-    return {"prelude": PRELUDE, "items": items, "meta": meta, "nshards": min(14, len(items)), "timeout": 900 if tier == "quick" else 10800, "rss_cap_gb": 8 if tier == "quick" else 14}
+    return {"prelude": PRELUDE + EXTRA, "items": items, "meta": meta, "nshards": min(14, len(items)), "timeout": 900 if tier == "quick" else 10800, "rss_cap_gb": 8 if tier == "quick" else 14}
